@@ -162,3 +162,50 @@ def random_play(draw, on_call=None, noise=0, nmin=2, lenient=False, float_height
             p.try_noise()
             p.noise = keep
     return p
+
+
+def multiway_jumpoff_play(draw, on_call=None, noise=0, tail=0, entries=False):
+    """A scripted family the random plays reach only now and then: 3-4 athletes tie for first, a jump-off round separates
+    some of them (at least one clears, at least one fails), and in the following rounds the survivors clear, fail or - often -
+    retire.  Every call still goes through the model (hjsearch.check_call)."""
+    n = 3 + draw(2)
+    ops = [ENTRY_OPS[draw(len(ENTRY_OPS))] for _ in range(n)] if entries else None
+    p = Player(n, on_call, noise, draw, add_ops=ops)
+    p.tail = tail
+    bibs = BIBS[:n]
+    h = Decimal('1.00')
+    p.call(('bar', h))
+    shared = ['o', 'xo', 'xxo'][draw(3)]
+    for k in range(3):
+        for b in bibs:
+            if len(shared) > k:
+                p.call((OPS[shared[k]], b))
+    h += hjsearch.STEP
+    p.call(('bar', h))
+    for _ in range(3):
+        for b in bibs:
+            p.call(('failed', b))
+    rounds = 0
+    first = True
+    while p.alive and p.c.state == 'jumpoff' and rounds < 4:
+        rounds += 1
+        last = p.m.heights[-1]
+        nh = [last + hjsearch.STEP, last, last - hjsearch.STEP, last - 2 * hjsearch.STEP][draw(4)]
+        if not p.call(('bar', nh)):
+            break
+        live = [a.bib for a in p.m.ath.values() if a.in_jo and not a.out]
+        if draw(2):
+            live.reverse()
+        if first and len(live) >= 2:
+            # the separating round: one surely clears, one surely fails, the others as drawn
+            outcome = {live[0]: 'cleared', live[1]: 'failed'}
+            for b in live[2:]:
+                outcome[b] = ['cleared', 'failed'][draw(2)]
+            first = False
+        else:
+            outcome = {b: ['cleared', 'failed', 'failed', 'retired', 'retired'][draw(5)] for b in live}
+        for b in live:
+            p.call((outcome[b], b))
+            if p.c.state != 'jumpoff':
+                break
+    return p
